@@ -5,6 +5,7 @@ F3 every KAT compares every expected output, failing edge rejects
 F4 corruption hook precedes processing; START / PASS|FAIL around each vector
 F5 every vector of every table is visited; the documented algorithm list is covered"""
 import copy, re
+from .c14 import _recname
 from .. import cf, guards
 from . import shared
 
@@ -245,9 +246,11 @@ def run_f1(chk, P):
             fe = fail_edge(f, tb, m) if tb is not None else None
             ok = False
             if fe is not None:
+                mgr = f.params[0]['name'] if f.params else None
                 ok, _ = cf.walk_paths_must(
                     f, fe, None,
-                    lambda e: e['k'] == 'call' and e['e'].get('fn') == 'imb_set_errno' and cf.evalc(e['e']['a'][1]) == st_err,
+                    lambda e: e['k'] == 'call' and e['e'].get('fn') == 'imb_set_errno' and cf.evalc(e['e']['a'][1]) == st_err and
+                    cf.strip_casts(e['e']['a'][0]).get('n') == mgr,
                     lambda e: e['k'] == 'return')
                 oe = ok_edge(f, tb, m)
                 # success edge must not set an error
@@ -256,7 +259,7 @@ def run_f1(chk, P):
                            if b != fe and fe not in dom.get(b, ()) and e['k'] == 'call' and e['e'].get('fn') == 'imb_set_errno' and
                            cf.evalc(e['e']['a'][1]) not in (0, None)]
                     r.check(not bad, name + ':success-clean', ev['loc'], '%s sets an error code on the self-test success path' % name)
-            r.check(ok, name + ':errno', ev['loc'], '%s does not set IMB_ERR_SELFTEST when self_test() fails' % name)
+            r.check(ok, name + ':errno', ev['loc'], '%s does not record IMB_ERR_SELFTEST in the manager when self_test() fails' % name)
     # init_mb_mgr_auto reaches one of them for every accepted feature set
     fs = P.find('init_mb_mgr_auto')
     if fs:
@@ -592,6 +595,50 @@ def run_f5(chk, P):
     chk.extra['announced'] = sorted(descs)
 
 
+PAIRS = (('msg_len_to_hash_in_bytes', 'hash_start_src_offset_in_bytes'), ('msg_len_to_hash_in_bits', 'hash_start_src_offset_in_bytes'),
+         ('msg_len_to_cipher_in_bytes', 'cipher_start_src_offset_in_bytes'), ('msg_len_to_cipher_in_bits', 'cipher_start_src_offset_in_bits'),
+         ('auth_tag_output', 'auth_tag_output_len_in_bytes'), ('iv', 'iv_len_in_bytes'), ('enc_keys', 'key_len_in_bytes'),
+         ('dec_keys', 'key_len_in_bytes'), ('cipher_mode', 'cipher_direction'), ('cipher_mode', 'chain_order'), ('cipher_mode', 'hash_alg'))
+
+
+def rule_job_setup(chk, P, rid, floor=20):
+    """the job ring is not cleared by init and IMB_GET_NEXT_JOB hands out slots that hold earlier jobs: library code that builds a job
+    itself (the self-tests) must assign every field of a group it uses — a length without its start offset, a buffer without its
+    length, a key without its size leaves the stale value of an earlier job in force"""
+    r = chk.rule(rid, 'library code that fills a job obtained from the ring assigns the companion field of every field group it uses (length '
+                      'and start offset, buffer and length, key and key size, mode and direction/order/hash): nothing of the slot\'s earlier job '
+                      'stays in force', floor=floor)
+    n = 0
+    for tu in P.tus():
+        for f in P.funcs(tu):
+            gets = [ev for _, _, ev in f.events(('call', 'decl', 'assign'))
+                    if any(nd.get('k') == 'call' and ((nd.get('fn') or '') == 'IMB_GET_NEXT_JOB' or
+                                                      (nd.get('callee') is not None and cf.strip_casts(nd['callee']).get('f') == 'get_next_job'))
+                           for k in ('e', 'rhs') for nd in cf.walk(ev.get(k) or {})) or
+                    (ev['k'] == 'decl' and any(nd.get('k') == 'call' and nd.get('callee') is not None and
+                                               cf.strip_casts(nd['callee']).get('f') == 'get_next_job'
+                                               for d in ev['d'] for nd in cf.walk(d.get('init') or {})))]
+            if not gets or (f.name, f.loc) in _seen_setup:
+                continue
+            _seen_setup.add((f.name, f.loc))
+            flds = {}
+            for _, _, ev in f.events(('assign',)):
+                l = cf.strip_casts(ev['lhs'])
+                if l.get('k') == 'mem' and ('IMB_JOB' in (l.get('rec') or '') or not l.get('rec')) and l.get('f'):
+                    flds.setdefault(l['f'], ev.get('sloc') or ev['loc'])
+            for a, b in PAIRS:
+                if a in flds:
+                    n += 1
+                    r.check(b in flds, '%s:%s->%s' % (f.name, a, b), flds[a],
+                            '%s sets job->%s of a job taken from the ring but never job->%s: the value left by the slot\'s previous job is used' % (
+                                f.name, a, b))
+    _seen_setup.clear()
+    return r
+
+
+_seen_setup = set()
+
+
 def run(chk):
     P = cf.Program()
     if TU not in P.facts:
@@ -606,3 +653,4 @@ def run(chk):
     run_f2(chk, P)
     run_f3_f4(chk, P)
     run_f5(chk, P)
+    rule_job_setup(chk, P, 'F6', floor=20)
